@@ -6,4 +6,5 @@ export GOFLAGS=-mod=mod GOPROXY=off GOSUMDB=off GOTOOLCHAIN=local PATH=/opt/veri
 mkdir -p bin evidence replays
 (cd tools/instrument && go build -o ../../bin/instrument .)
 (cd cmd/verif && go build -o ../../bin/verif .)
+(cd tools/mutate && go build -o ../../bin/mutate .)
 echo "setup ok: $(ls bin | tr '\n' ' ')"
